@@ -932,6 +932,12 @@ func main() {
 				collect(f, emit)
 			}
 		}
+		// the pinned regression corpus also feeds the model-vs-code comparison
+		for _, src := range hxbeh.ReadRegress("c04") {
+			if f, err := parse(src); err == nil {
+				collect(f, emit)
+			}
+		}
 		for i := 0; emitted < o.N*3/4 && i < o.N*4; i++ {
 			g := hxbeh.NewGen(r, true, i%3 == 0)
 			src := g.Program(2 + r.IntN(3))
@@ -973,6 +979,9 @@ func main() {
 		} {
 			cases = append(cases, &searchCase{Src: w, From: "witness"})
 		}
+		for _, src := range hxbeh.ReadRegress("c04") {
+			cases = append(cases, &searchCase{Src: src, From: "regress"})
+		}
 		for _, src := range hxbeh.InterpTestPrograms() {
 			cases = append(cases, &searchCase{Src: src, From: "corpus"})
 		}
@@ -996,7 +1005,7 @@ func main() {
 			if orig == "" {
 				continue
 			}
-			if c.From != "witness" { // the witnesses are pinned by hand and harmless
+			if c.From != "witness" && c.From != "regress" { // pinned by hand and harmless
 				if ok, _ := hxbeh.SafeText(c.Src); !ok {
 					continue
 				}
